@@ -791,13 +791,13 @@ Section ClientSide.
     /\ m_id (c_query c1) = m_id (c_query c).
   Proof.
     unfold add_ecs. destruct (q_opt c) as [qo|]; [|discriminate].
-    destruct (m_question (c_query c)) as [|qu qs]; [discriminate|].
-    destruct (has_code ecs_code (o_opts qo)); [intro H; inversion H; subst; repeat split|].
-    destruct (negb (qclass qu =? class_inet)); [intro H; inversion H; subst; repeat split|].
+    destruct (m_question (c_query c)) as [|qu qs] eqn:Eq; [discriminate|].
+    destruct (has_code ecs_code (o_opts qo)); [intro H; inversion H; subst; repeat split; exact Eq|].
+    destruct (negb (qclass qu =? class_inet)); [intro H; inversion H; subst; repeat split; exact Eq|].
     destruct (if fwd then _ else None); [|destruct preset; [|destruct send; [destruct (c_client_addr c)|]]];
-      intro H; inversion H; subst; try (repeat split; fail);
+      intro H; inversion H; subst; try (repeat split; exact Eq);
       match goal with |- context [q_add_opts c ?es] => destruct (q_add_opts_fields c es) as (? & ? & ? & ? & ? & ? & ? & ?) end;
-      repeat split; assumption.
+      repeat split; congruence.
   Qed.
 
   Lemma ecs_invD w fwd send preset m4 m6 k :
@@ -810,8 +810,8 @@ Section ClientSide.
       revert Hs. apply invD_frame; cbn; congruence. }
     specialize (Hk x _ H1). destruct (k (c1, wd)) as [[t [c2 w2]] err]. unfold ost in *. cbn [fst snd] in *.
     destruct err; [exact Hk|]. destruct forwarded; [|exact Hk].
-    destruct (c_resp_opt c2); [|exact Hk]. destruct (c_upstream_opt c2) as [uo|] eqn:Eu; [|exact Hk].
-    destruct (first_code ecs_code (o_opts uo)) as [o|] eqn:Ef; [|exact Hk].
+    destruct (c_resp_opt c2) as [ro|]; [|exact Hk]. destruct (c_upstream_opt c2) as [uo|] eqn:Eu; [|exact Hk].
+    destruct (first_code ecs_code (o_opts uo)) as [e0|] eqn:Ef; [|exact Hk].
     apply resp_add_opts_invD; [|exact Hk]. constructor; [|constructor].
     apply first_code_some in Ef as [Hin Hc]. split.
     - destruct Hk as (_ & _ & H3 & _). specialize (H3 _ Eu). rewrite Forall_forall in H3. apply H3. exact Hin.
@@ -858,3 +858,348 @@ Section ClientSide.
     destruct (run_seq (plug_env ups clock xp wp mp) prog s) as [[t s'] err]. exact R.
   Qed.
 End ClientSide.
+
+(** * The entry handler *)
+
+Lemma valid_query_shape q :
+  valid_query q = true ->
+  m_qr q = false /\ (exists qu, m_question q = [qu]) /\ m_answer q = [] /\ m_ns q = []
+  /\ (m_extra q = [] \/ exists x, m_extra q = [x]).
+Proof.
+  unfold valid_query. intro H. apply negb_true_iff in H.
+  apply orb_false_iff in H as [H H4]. apply orb_false_iff in H as [H H3]. apply orb_false_iff in H as [H1 H2].
+  apply negb_false_iff in H2. apply Nat.eqb_eq in H2. apply Nat.ltb_ge in H3, H4.
+  split; [exact H1|]. split.
+  - destruct (m_question q) as [|qu [|]]; try discriminate. eauto.
+  - destruct (m_answer q); [|cbn in H3; lia]. destruct (m_ns q); [|cbn in H3; lia].
+    repeat split. destruct (m_extra q) as [|x [|]]; [auto | eauto | cbn in H4; lia].
+Qed.
+
+Lemma new_context_client_opt q udp ca : c_client_opt (new_context q udp ca) = find_opt (m_extra q).
+Proof.
+  unfold new_context. destruct (swap_opt new_opt (m_extra q)) as [[ex old]|] eqn:E; cbn.
+  - destruct (swap_opt_some _ _ _ _ E) as (l & E1 & _). symmetry. eapply find_opt_last. exact E1.
+  - apply swap_opt_none in E. symmetry. apply find_opt_none. exact E.
+Qed.
+
+Lemma new_context_fields q udp ca :
+  c_client_addr (new_context q udp ca) = ca /\ c_from_udp (new_context q udp ca) = udp
+  /\ c_resp (new_context q udp ca) = None /\ c_upstream_opt (new_context q udp ca) = None
+  /\ m_question (c_query (new_context q udp ca)) = m_question q /\ m_id (c_query (new_context q udp ca)) = m_id q
+  /\ m_opcode (c_query (new_context q udp ca)) = m_opcode q /\ m_rd (c_query (new_context q udp ca)) = m_rd q
+  /\ m_cd (c_query (new_context q udp ca)) = m_cd q.
+Proof. unfold new_context. destruct (swap_opt new_opt (m_extra q)) as [[ex old]|]; cbn; repeat split. Qed.
+
+(** The query of a fresh context: exactly one OPT, the fresh one *)
+Lemma new_context_query_opt q udp ca :
+  valid_query q = true -> opts_of (m_extra (c_query (new_context q udp ca))) = [new_opt].
+Proof.
+  intro Hv. destruct (valid_query_shape q Hv) as (_ & _ & _ & _ & [E | [x E]]); unfold new_context; rewrite E; cbn.
+  - reflexivity.
+  - destruct x; cbn; reflexivity.
+Qed.
+
+Lemma new_context_resp_opt q udp ca :
+  match find_opt (m_extra q) with
+  | None => c_resp_opt (new_context q udp ca) = None
+  | Some o => exists r, c_resp_opt (new_context q udp ca) = Some r /\ o_udp r = edns0_size /\ o_do r = o_do o
+                        /\ o_ver r = 0 /\ o_ext r = 0 /\ o_opts r = []
+  end.
+Proof.
+  rewrite <- (new_context_client_opt q udp ca).
+  unfold new_context. destruct (swap_opt new_opt (m_extra q)) as [[ex old]|]; cbn; [|reflexivity].
+  exists (set_do new_opt (o_do old)). unfold set_do. destruct (o_do old); cbn; repeat split.
+Qed.
+
+Lemma new_context_invU wp q udp ca w :
+  valid_query q = true ->
+  Forall (fun x => one_fresh wp (find_opt (m_extra q)) ca (snd x)) (w_log w) ->
+  invU wp (find_opt (m_extra q)) ca tt (new_context q udp ca, w).
+Proof.
+  intros Hv Hl. destruct (new_context_fields q udp ca) as (E1 & _).
+  unfold invU. cbn [fst snd]. rewrite new_context_client_opt, E1. repeat split; try assumption.
+  exists new_opt. split; [apply new_context_query_opt; exact Hv|]. repeat split. constructor.
+Qed.
+
+Lemma new_context_invD ups wp q udp ca w :
+  stores_no_opt w -> invD ups wp (find_opt (m_extra q)) tt (new_context q udp ca, w).
+Proof.
+  intro Hs. destruct (new_context_fields q udp ca) as (_ & _ & E3 & E4 & _).
+  unfold invD. cbn [fst snd]. rewrite new_context_client_opt, E3, E4.
+  split; [reflexivity|]. split; [|repeat split; try discriminate; exact Hs].
+  unfold resp_opt_ok. pose proof (new_context_resp_opt q udp ca) as H.
+  destruct (find_opt (m_extra q)); [|exact H].
+  destruct H as (r & -> & F1 & F2 & F3 & F4 & F5). exists r. repeat split; try assumption.
+  rewrite F5. constructor.
+Qed.
+
+(** ** The contract of Msg.Truncate and the OPT record *)
+Lemma is_prefix_rr_app a : forall b, is_prefix_rr a b = true -> exists c, b = a ++ c.
+Proof.
+  induction a as [|x a IH]; intros b H; cbn in H; [exists b; reflexivity|].
+  destruct b as [|y b]; [discriminate|]. apply andb_true_iff in H as [H1 H2].
+  apply rr_eqb_true in H1. subst y. destruct (IH _ H2) as (c & ->). exists c. reflexivity.
+Qed.
+
+Lemma prefix_no_opt a b : is_prefix_rr a b = true -> opts_of b = [] -> opts_of a = [].
+Proof.
+  intros H Hb. destruct (is_prefix_rr_app _ _ H) as (c & ->). rewrite opts_of_app in Hb.
+  now apply app_eq_nil in Hb.
+Qed.
+
+Lemma extra_rel_opts ex ex' :
+  extra_rel ex ex' = true -> (length (opts_of ex) <= 1)%nat -> opts_of ex' = opts_of ex.
+Proof.
+  unfold extra_rel. intros H Hl. apply orb_true_iff in H as [H|H].
+  - apply (list_eqb_true _ rr_eqb_true) in H. now subst.
+  - destruct (pop_opt ex) as [[rest o]|] eqn:Hp.
+    + destruct (pop_opt ex') as [[rest' o']|] eqn:Hp'; [|discriminate].
+      apply andb_true_iff in H as [H _]. apply andb_true_iff in H as [Ho Hpre].
+      apply opt_eqb_true in Ho. subst o'. apply pop_opt_some in Hp, Hp'.
+      rewrite Hp in Hl. rewrite app_length in Hl. cbn in Hl.
+      assert (Hr : opts_of rest = []) by (destruct (opts_of rest); [reflexivity | cbn in Hl; lia]).
+      rewrite Hp, Hp', Hr, (prefix_no_opt _ _ Hpre Hr). reflexivity.
+    + apply pop_opt_none in Hp. rewrite Hp. eapply prefix_no_opt; eassumption.
+Qed.
+
+Lemma trunc_rel_parts m m' :
+  trunc_rel m m' = true ->
+  m_id m' = m_id m /\ m_qr m' = m_qr m /\ m_ra m' = m_ra m /\ m_rcode m' = m_rcode m
+  /\ m_question m' = m_question m /\ m_opcode m' = m_opcode m
+  /\ extra_rel (m_extra m) (m_extra m') = true
+  /\ m_tc m' = (m_tc m || dropped m m')
+  /\ is_prefix_rr (m_answer m') (m_answer m) = true /\ is_prefix_rr (m_ns m') (m_ns m) = true.
+Proof.
+  unfold trunc_rel. intro H.
+  apply andb_true_iff in H as [H Htc]. apply andb_true_iff in H as [H Hex].
+  apply andb_true_iff in H as [H Hns]. apply andb_true_iff in H as [H Han].
+  apply msg_eqb_true in H. apply Bool.eqb_prop in Htc.
+  destruct m, m'. cbn in *. inversion H; subst. repeat split; assumption.
+Qed.
+
+Section Reply.
+  Variable truncate : N -> msg -> msg.
+  (** The contract of miekg's Msg.Truncate (checked on every observed reply by Judge.C15.agree) *)
+  Hypothesis trunc_contract : forall size m, trunc_rel m (truncate size m) = true.
+
+  Lemma truncate_opts size m : (length (opts_of (m_extra m)) <= 1)%nat ->
+    opts_of (m_extra (truncate size m)) = opts_of (m_extra m).
+  Proof.
+    intro H. destruct (trunc_rel_parts _ _ (trunc_contract size m)) as (_ & _ & _ & _ & _ & _ & He & _).
+    apply extra_rel_opts; assumption.
+  Qed.
+
+  (** the message before the optional truncation *)
+  Definition pre_reply (c : ctx) (err : option N) : msg := reply_msg (fun _ m => m) c err.
+
+  Lemma reply_msg_truncate c err :
+    reply_msg truncate c err =
+    if c_from_udp c then truncate (valid_udp_size (c_client_opt c)) (pre_reply c err) else pre_reply c err.
+  Proof. unfold pre_reply, reply_msg. destruct (c_from_udp c); reflexivity. Qed.
+
+  Lemma pre_reply_opts c err :
+    (forall r, c_resp c = Some r -> opts_of (m_extra r) = []) ->
+    opts_of (m_extra (pre_reply c err)) = match c_resp_opt c with Some o => [o] | None => [] end.
+  Proof.
+    intro H. unfold pre_reply, reply_msg.
+    set (resp := match chain_result_of c err with
+                 | ChainErr => with_rcode (set_reply (c_query c)) rcode_servfail
+                 | ChainNone => with_rcode (set_reply (c_query c)) Msg.rcode_refused
+                 | ChainAnswer r => r end).
+    assert (Hr : opts_of (m_extra resp) = []).
+    { subst resp. unfold chain_result_of. destruct err; [reflexivity|].
+      destruct (c_resp c) eqn:E; [apply H; reflexivity | reflexivity]. }
+    cbv zeta. fold resp. clearbody resp.
+    destruct (c_from_udp c), (c_resp_opt c); cbn; rewrite ?opts_of_app, ?Hr; reflexivity.
+  Qed.
+
+  Lemma reply_msg_opts c err :
+    (forall r, c_resp c = Some r -> opts_of (m_extra r) = []) ->
+    opts_of (m_extra (reply_msg truncate c err)) = match c_resp_opt c with Some o => [o] | None => [] end.
+  Proof.
+    intro H. rewrite reply_msg_truncate. pose proof (pre_reply_opts c err H) as E.
+    destruct (c_from_udp c); [|exact E]. rewrite truncate_opts; [exact E|].
+    rewrite E. destruct (c_resp_opt c); cbn; lia.
+  Qed.
+End Reply.
+
+(** * C15: the theorems *)
+Section C15.
+  Variable ups : N -> msg -> option msg.
+  Variable clock : N -> option N.
+  Variable xp : N -> xplugin.
+  Variable wp : N -> wplugin.
+  Variable mp : N -> matcher.
+  Variable truncate : N -> msg -> msg.
+  Variable packs : msg -> bool.
+
+  Notation run prog := (handle truncate packs (entry ups clock xp wp mp prog)).
+
+  (** Everything handed to an upstream while a query is handled carries
+      exactly one OPT, and it is a fresh one. *)
+  Lemma upstream_query_one_fresh_opt prog w q udp ca :
+    w_log w = [] ->
+    forall u m, In (u, m) (w_log (fst (run prog w q udp ca))) ->
+    exists o, opts_of (m_extra m) = [o] /\ o_udp o = edns0_size /\ o_do o = false /\ o_ver o = 0
+              /\ forall e, In e (o_opts o) -> allowed_up wp (find_opt (m_extra q)) ca e.
+  Proof.
+    intros Hl u m Hin. unfold handle in Hin. destruct (valid_query q) eqn:Hv.
+    - assert (H0 : invU wp (find_opt (m_extra q)) ca tt (new_context q udp ca, w)).
+      { apply new_context_invU; [exact Hv | rewrite Hl; constructor]. }
+      pose proof (entry_invU ups clock xp wp mp _ _ prog _ H0) as H1.
+      destruct (entry ups clock xp wp mp prog (new_context q udp ca, w)) as [[c w'] err].
+      cbn [fst snd] in *. destruct H1 as (_ & _ & _ & H4). rewrite Forall_forall in H4.
+      destruct (H4 _ Hin) as (o & Ho & F1 & F2 & F3 & F4). exists o. repeat split; try assumption.
+      rewrite Forall_forall in F4. exact F4.
+    - cbn in Hin. rewrite Hl in Hin. destruct Hin.
+  Qed.
+
+  (** The caches never hold an OPT in an additional section, whatever happens. *)
+  Lemma cache_stores_no_opt prog w q udp ca :
+    stores_no_opt w -> stores_no_opt (fst (run prog w q udp ca)).
+  Proof.
+    intro H. unfold handle. destruct (valid_query q); [|exact H].
+    pose proof (entry_invS ups clock xp wp mp prog (new_context q udp ca, w) H) as H1.
+    destruct (entry ups clock xp wp mp prog (new_context q udp ca, w)) as [[c w'] err]. exact H1.
+  Qed.
+
+  Hypothesis up_ok : forall u q r, ups u q = Some r -> (count_opt (m_extra r) <= 1)%nat.
+  Hypothesis trunc_contract : forall size m, trunc_rel m (truncate size m) = true.
+
+  (** The reply's OPT records: none when the client sent none; otherwise
+      exactly one, fresh, DO mirrored, options only from upstream replies and
+      only through a plugin that forwards their code. *)
+  Lemma reply_opt_shape prog w q udp ca w' r :
+    stores_no_opt w ->
+    run prog w q udp ca = (w', Some r) ->
+    match find_opt (m_extra q) with
+    | None => opts_of (m_extra r) = []
+    | Some co => exists ro, opts_of (m_extra r) = [ro] /\ o_udp ro = edns0_size /\ o_do ro = o_do co
+                            /\ o_ver ro = 0 /\ Forall (allowed_down ups wp) (o_opts ro)
+    end.
+  Proof.
+    intros Hs Hr. unfold handle in Hr. destruct (valid_query q) eqn:Hv; [|discriminate].
+    pose proof (entry_invD ups clock xp wp mp _ up_ok prog _ (new_context_invD ups wp q udp ca w Hs)) as H1.
+    destruct (entry ups clock xp wp mp prog (new_context q udp ca, w)) as [[c w1] err].
+    destruct (packs (reply_msg truncate c err)); [|discriminate]. inversion Hr; subst w' r. clear Hr.
+    destruct H1 as (_ & H2 & _ & H4 & _). cbn [fst snd] in *.
+    rewrite (reply_msg_opts truncate trunc_contract c err H4).
+    unfold resp_opt_ok in H2. destruct (find_opt (m_extra q)) as [co|].
+    - destruct H2 as (ro & -> & F1 & F2 & F3 & F4 & F5). exists ro. repeat split; assumption.
+    - rewrite H2. reflexivity.
+  Qed.
+End C15.
+
+(** * Corollaries in the words of the property, and reflexivity of the contract *)
+Section C15Corollaries.
+  Variable ups : N -> msg -> option msg.
+  Variable clock : N -> option N.
+  Variable xp : N -> xplugin.
+  Variable wp : N -> wplugin.
+  Variable mp : N -> matcher.
+  Variable truncate : N -> msg -> msg.
+  Variable packs : msg -> bool.
+  Hypothesis up_ok : forall u q r, ups u q = Some r -> (count_opt (m_extra r) <= 1)%nat.
+  Hypothesis trunc_contract : forall size m, trunc_rel m (truncate size m) = true.
+  Notation run prog := (handle truncate packs (entry ups clock xp wp mp prog)).
+
+  Lemma reply_opt_iff_client_opt prog w q udp ca w' r :
+    stores_no_opt w -> run prog w q udp ca = (w', Some r) ->
+    count_opt (m_extra r) = match find_opt (m_extra q) with Some _ => 1%nat | None => 0%nat end.
+  Proof.
+    intros Hs Hr. pose proof (reply_opt_shape ups clock xp wp mp truncate packs up_ok trunc_contract _ _ _ _ _ _ _ Hs Hr) as H.
+    unfold count_opt. destruct (find_opt (m_extra q)).
+    - destruct H as (ro & -> & _). reflexivity.
+    - rewrite H. reflexivity.
+  Qed.
+
+  Lemma do_mirrored prog w q udp ca w' r co ro :
+    stores_no_opt w -> run prog w q udp ca = (w', Some r) ->
+    find_opt (m_extra q) = Some co -> In ro (opts_of (m_extra r)) ->
+    o_do ro = o_do co /\ o_udp ro = edns0_size /\ o_ver ro = 0.
+  Proof.
+    intros Hs Hr Hc Hin. pose proof (reply_opt_shape ups clock xp wp mp truncate packs up_ok trunc_contract _ _ _ _ _ _ _ Hs Hr) as H.
+    rewrite Hc in H. destruct H as (ro' & E & F1 & F2 & F3 & _). rewrite E in Hin.
+    destruct Hin as [<-|[]]. auto.
+  Qed.
+
+  Lemma reply_options_only_forwarded prog w q udp ca w' r ro e :
+    stores_no_opt w -> run prog w q udp ca = (w', Some r) ->
+    In ro (opts_of (m_extra r)) -> In e (o_opts ro) ->
+    allowed_down ups wp e.
+  Proof.
+    intros Hs Hr Hin He. pose proof (reply_opt_shape ups clock xp wp mp truncate packs up_ok trunc_contract _ _ _ _ _ _ _ Hs Hr) as H.
+    destruct (find_opt (m_extra q)).
+    - destruct H as (ro' & E & _ & _ & _ & F). rewrite E in Hin. destruct Hin as [<-|[]].
+      rewrite Forall_forall in F. apply F. exact He.
+    - rewrite H in Hin. destruct Hin.
+  Qed.
+
+  (** What the chain leaves in R() never holds an OPT in its additional section. *)
+  Lemma response_has_no_opt prog w q udp ca c w' err r :
+    stores_no_opt w ->
+    entry ups clock xp wp mp prog (new_context q udp ca, w) = ((c, w'), err) ->
+    c_resp c = Some r -> opts_of (m_extra r) = [].
+  Proof.
+    intros Hs He Hr.
+    pose proof (entry_invD ups clock xp wp mp _ up_ok prog _ (new_context_invD ups wp q udp ca w Hs)) as H1.
+    rewrite He in H1. destruct H1 as (_ & _ & _ & H4 & _). apply H4. exact Hr.
+  Qed.
+End C15Corollaries.
+
+Lemma trunc_rel_keeps_opts m m' :
+  trunc_rel m m' = true -> (count_opt (m_extra m) <= 1)%nat -> opts_of (m_extra m') = opts_of (m_extra m).
+Proof.
+  intros H Hl. destruct (trunc_rel_parts _ _ H) as (_ & _ & _ & _ & _ & _ & He & _).
+  apply extra_rel_opts; assumption.
+Qed.
+
+Lemma name_eqb_refl a : name_eqb a a = true.
+Proof. apply CacheKey.eqb_bytes_refl. Qed.
+Lemma list_eqb_refl {A} (eqb : A -> A -> bool) : (forall x, eqb x x = true) -> forall l, list_eqb eqb l l = true.
+Proof. intros H l. induction l; cbn; [reflexivity | now rewrite H, IHl]. Qed.
+Lemma eopt_eqb_refl a : eopt_eqb a a = true.
+Proof. unfold eopt_eqb. now rewrite !N.eqb_refl. Qed.
+Lemma opt_eqb_refl a : opt_eqb a a = true.
+Proof. unfold opt_eqb. now rewrite !N.eqb_refl, Bool.eqb_reflx, (list_eqb_refl _ eopt_eqb_refl). Qed.
+Lemma rr_eqb_refl a : rr_eqb a a = true.
+Proof.
+  destruct a; cbn; [|apply opt_eqb_refl]. rewrite name_eqb_refl, !N.eqb_refl. destruct rd; cbn; [apply N.eqb_refl | apply name_eqb_refl].
+Qed.
+Lemma question_eqb_refl a : question_eqb a a = true.
+Proof. now apply CacheKey.question_eqb_iff. Qed.
+Lemma msg_eqb_refl a : msg_eqb a a = true.
+Proof.
+  unfold msg_eqb. now rewrite !N.eqb_refl, !Bool.eqb_reflx, (list_eqb_refl _ question_eqb_refl), !(list_eqb_refl _ rr_eqb_refl).
+Qed.
+Lemma is_prefix_rr_refl l : is_prefix_rr l l = true.
+Proof. induction l; cbn; [reflexivity | now rewrite rr_eqb_refl]. Qed.
+
+(** Leaving the message alone satisfies the relational part of the contract. *)
+Lemma trunc_rel_refl m : trunc_rel m m = true.
+Proof.
+  unfold trunc_rel, extra_rel, dropped. rewrite msg_eqb_refl, !is_prefix_rr_refl, (list_eqb_refl _ rr_eqb_refl), !Nat.ltb_irrefl.
+  cbn. rewrite orb_false_r. apply Bool.eqb_reflx.
+Qed.
+
+Lemma ttl_ops_skip_opt fx mn mx delta t m :
+  same_opts m (ttl_apply fx mn mx m) /\ same_opts m (set_ttl t m) /\ same_opts m (apply_min_ttl t m)
+  /\ same_opts m (apply_max_ttl t m) /\ same_opts m (subtract_ttl delta m).
+Proof.
+  split; [apply ttl_apply_same_opts|]. repeat split; apply map_ttl_msg_same_opts.
+Qed.
+
+(** Without a forwarding plugin no option is ever put into the query OPT. *)
+Lemma upstream_no_options_without_plugin ups clock xp wp mp truncate packs prog w q udp ca :
+  (forall i, match wp i with WCache _ | WRedirect _ => True | _ => False end) ->
+  w_log w = [] ->
+  forall u m, In (u, m) (w_log (fst (handle truncate packs (entry ups clock xp wp mp prog) w q udp ca))) ->
+  exists o, opts_of (m_extra m) = [o] /\ o_opts o = [].
+Proof.
+  intros Hn Hl u m Hin.
+  destruct (upstream_query_one_fresh_opt ups clock xp wp mp truncate packs prog w q udp ca Hl u m Hin)
+    as (o & Ho & _ & _ & _ & Ha).
+  exists o. split; [exact Ho|]. destruct (o_opts o) as [|e l]; [reflexivity|]. exfalso.
+  destruct (Ha e (or_introl eq_refl)) as [(i & codes & Hi & _) | (i & f & s & p & a & b & Hi & _)];
+    specialize (Hn i); rewrite Hi in Hn; exact Hn.
+Qed.
